@@ -5,6 +5,11 @@ package gateway
 import (
 	"github.com/openkruise/rollouts/api/v1beta1"
 	"github.com/openkruise/rollouts/pkg/verifrt"
+	"github.com/openkruise/rollouts/pkg/verifrt/symclient"
+	metav1 "k8s.io/apimachinery/pkg/apis/meta/v1"
+	"sigs.k8s.io/controller-runtime/pkg/client"
+	"context"
+	"fmt"
 	gatewayv1beta1 "sigs.k8s.io/gateway-api/apis/v1beta1"
 )
 
@@ -56,6 +61,10 @@ func c13RouteMatch(name string) gatewayv1beta1.HTTPRouteMatch {
 	t := gatewayv1beta1.PathMatchPathPrefix
 	v := verifrt.String(name + ".path")
 	m.Path = &gatewayv1beta1.HTTPPathMatch{Type: &t, Value: &v}
+	if verifrt.Bool(name + ".hasMethod") {
+		g := gatewayv1beta1.HTTPMethodGet
+		m.Method = &g
+	}
 	if name == "r1.match" || verifrt.Bool(name+".hasHeader") {
 		m.Headers = []gatewayv1beta1.HTTPHeaderMatch{{Name: gatewayv1beta1.HTTPHeaderName(verifrt.String(name + ".hname")), Value: verifrt.String(name + ".hval")}}
 	}
@@ -153,8 +162,15 @@ func c13QueriesEq(a, b []gatewayv1beta1.HTTPQueryParamMatch) bool {
 	return r
 }
 
+func c13MethodEq(a, b *gatewayv1beta1.HTTPMethod) bool {
+	if a == nil || b == nil {
+		return a == nil && b == nil
+	}
+	return *a == *b
+}
+
 func c13MatchEq(a, b gatewayv1beta1.HTTPRouteMatch) bool {
-	return verifrt.And(c13PathEq(a.Path, b.Path), c13HeadersEq(a.Headers, b.Headers), c13QueriesEq(a.QueryParams, b.QueryParams))
+	return verifrt.And(c13PathEq(a.Path, b.Path), c13HeadersEq(a.Headers, b.Headers), c13QueriesEq(a.QueryParams, b.QueryParams), c13MethodEq(a.Method, b.Method))
 }
 
 func c13RuleEq(a, b gatewayv1beta1.HTTPRouteRule) bool {
@@ -332,7 +348,7 @@ func VerifC13_MatchStep() {
 					}
 					for oj := range orig[oi].Matches {
 						om := orig[oi].Matches[oj]
-						ok = verifrt.Or(ok, verifrt.And(c13PathEq(m.Path, om.Path), c13HasHeaderSuffix(m.Headers, u.Headers, om.Headers), c13HasQuerySuffix(m.QueryParams, u.QueryParams, om.QueryParams)))
+						ok = verifrt.Or(ok, verifrt.And(c13PathEq(m.Path, om.Path), c13MethodEq(m.Method, om.Method), c13HasHeaderSuffix(m.Headers, u.Headers, om.Headers), c13HasQuerySuffix(m.QueryParams, u.QueryParams, om.QueryParams)))
 					}
 				}
 			}
@@ -351,4 +367,64 @@ func VerifC13_MatchStep() {
 		}
 	}
 	verifrt.Cover("done")
+}
+
+// VerifC13_EnsureRoutesAndFinalise: through the provider entry points with the API object in a store — a step is
+// reported routed only if the stored HTTPRoute carries exactly the step's split, otherwise the update that is written
+// carries it; Finalise reports "nothing to do" only if the stored route has no canary reference left.
+func VerifC13_EnsureRoutesAndFinalise() {
+	name := "route"
+	route := &gatewayv1beta1.HTTPRoute{ObjectMeta: metav1.ObjectMeta{Namespace: "ns", Name: name}}
+	rule := gatewayv1beta1.HTTPRouteRule{Matches: []gatewayv1beta1.HTTPRouteMatch{c13RouteMatch("m")}}
+	sw := verifrt.Int32("stored.stableWeight")
+	port := gatewayv1beta1.PortNumber(80)
+	rule.BackendRefs = append(rule.BackendRefs, gatewayv1beta1.HTTPBackendRef{BackendRef: gatewayv1beta1.BackendRef{BackendObjectReference: gatewayv1beta1.BackendObjectReference{Kind: &c13Service, Name: c13Stable, Port: &port}, Weight: &sw}})
+	hasCanary := verifrt.Bool("stored.hasCanaryRef")
+	if hasCanary {
+		cw := verifrt.Int32("stored.canaryWeight")
+		rule.BackendRefs = append(rule.BackendRefs, gatewayv1beta1.HTTPBackendRef{BackendRef: gatewayv1beta1.BackendRef{BackendObjectReference: gatewayv1beta1.BackendObjectReference{Kind: &c13Service, Name: c13Canary, Port: &port}, Weight: &cw}})
+	}
+	route.Spec.Rules = []gatewayv1beta1.HTTPRouteRule{rule}
+	cli := &symclient.Client{Objects: []client.Object{route}}
+	cli.ApplyFn = func(w symclient.Write) {
+		if w.Verb == "update" && w.Kind == "HTTPRoute" {
+			symclient.CopyInto(w.Obj, route)
+		}
+	}
+	r := &gatewayController{Client: cli, conf: Config{Key: "r", Namespace: "ns", StableService: c13Stable, CanaryService: c13Canary, TrafficConf: &v1beta1.GatewayTrafficRouting{HTTPRouteName: &name}}}
+	w := verifrt.IntRange("w", 0, 100)
+	t := fmt.Sprintf("%d%%", w)
+	split := func() (int32, int32, bool) {
+		rs := route.Spec.Rules
+		if len(rs) != 1 {
+			return 0, 0, false
+		}
+		si, ci := c13FirstSvc(rs[0], c13Stable), c13FirstSvc(rs[0], c13Canary)
+		if si < 0 || ci < 0 || rs[0].BackendRefs[si].Weight == nil || rs[0].BackendRefs[ci].Weight == nil {
+			return 0, 0, false
+		}
+		return *rs[0].BackendRefs[si].Weight, *rs[0].BackendRefs[ci].Weight, true
+	}
+	done, err := r.EnsureRoutes(context.TODO(), &v1beta1.TrafficRoutingStrategy{Traffic: &t})
+	verifrt.Assert(err == nil, "C13.ensure.noerror")
+	s, c, ok := split()
+	if done {
+		verifrt.Cover("already-routed")
+		verifrt.Assert(len(cli.Log) == 0, "C13.ensure.doneMeansNoWrite")
+	} else {
+		verifrt.Cover("updated")
+		verifrt.Assert(len(cli.Writes("update", "HTTPRoute")) == 1, "C13.ensure.notDoneMeansOneUpdate")
+	}
+	// either way the stored route now carries exactly the step's split
+	verifrt.Assert(ok && int(s) == 100-w && int(c) == w, "C13.ensure.storedRouteCarriesTheStepSplit")
+	// a second call is a fixed point (C07)
+	n := len(cli.Log)
+	done2, err2 := r.EnsureRoutes(context.TODO(), &v1beta1.TrafficRoutingStrategy{Traffic: &t})
+	verifrt.Assert(err2 == nil && done2 && len(cli.Log) == n, "C13.ensure.secondCallIsFixedPoint")
+	// finalise
+	_, err3 := r.Finalise(context.TODO())
+	verifrt.Assert(err3 == nil, "C13.finalise.noerror")
+	verifrt.Assert(len(route.Spec.Rules) == 1 && c13FirstSvc(route.Spec.Rules[0], c13Canary) < 0 && c13FirstSvc(route.Spec.Rules[0], c13Stable) >= 0, "C13.finalise.storedRouteHasNoCanaryRef")
+	retry, err4 := r.Finalise(context.TODO())
+	verifrt.Assert(err4 == nil && !retry, "C13.finalise.secondCallNothingToDo")
 }
